@@ -375,14 +375,10 @@ VARIANTS = [
                         self.queue.waiter.wait(count, &*pt, &self.queue.writers);
                     }
                 }""")]),
-    V('poll-empty-is-none', 'C07', ['P6b'], [E(MQ, """                Err((_, TryRecvError::Disconnected)) => return Ok(Async::Ready(None)),
-                Err((pt, _)) => {
-                    if unsafe { self.wait.fut_wait(count, &*pt, &self.reader.queue.writers) } {
+    V('poll-empty-is-none', 'C07', ['P6b'], [E(MQ, """                        self.prod_wait.notify_all();
                         return Ok(Async::NotReady);
                     }
-                }""", """                Err((_, TryRecvError::Disconnected)) => return Ok(Async::Ready(None)),
-                Err((pt, _)) => {
-                    if unsafe { self.wait.fut_wait(count, &*pt, &self.reader.queue.writers) } {
+                }""", """                        self.prod_wait.notify_all();
                         return Ok(Async::NotReady);
                     }
                     if self.reader.queue.writers.load(Relaxed) == 0 {
@@ -530,23 +526,15 @@ impl<RW: QueueRW<T>, R, F: for<'r> FnMut(&T) -> R, T> Drop""", """            le
 impl<RW: QueueRW<T>, R, F: for<'r> FnMut(&T) -> R, T> Drop""")]),
     V('poll-blocks-on-waiter', 'C15', ['P11f'], [E(MQ, """                Err((pt, _)) => {
                     if unsafe { self.wait.fut_wait(count, &*pt, &self.reader.queue.writers) } {
+                        // A failed attempt may have pinned a slot for a while: a producer that
+                        // was refused because of that pin has to be told that it is gone
+                        self.prod_wait.notify_all();
                         return Ok(Async::NotReady);
                     }
-                }
-            }
-        }
-    }
-}
-
-impl<RW: QueueRW<T>, T> Stream for FutInnerRecv<RW, T> {""", """                Err((pt, _)) => {
+                }""", """                Err((pt, _)) => {
+                    self.prod_wait.notify_all();
                     unsafe { self.reader.queue.waiter.wait(count, &*pt, &self.reader.queue.writers) };
-                }
-            }
-        }
-    }
-}
-
-impl<RW: QueueRW<T>, T> Stream for FutInnerRecv<RW, T> {""")]),
+                }""")]),
     V('tryfreeing-no-epoch-check', 'C16', ['P12a'], [E(MEM, """                if epoch != at {
                     return false;
                 }""", """                let _ = epoch;""")]),
